@@ -173,6 +173,25 @@ EXT = {
     "C19": "Added: arguments and the input graph must come back unchanged from every helper.",
 }
 
+# added during the audit rounds (DESIGN.md section 13); appended after EXT
+EXT2 = {
+    "C02": "Audit rounds: squeezing angles from every quadrant in Gaussian(V); graphs with self-loops incl. the identity matrix; BipartiteGraphEmbed(B, edges=True) over all small edge-weight matrices.",
+    "C03": "Audit rounds: programs with non-Gaussian gates (Kgate, Vgate, CKgate, daggered) judged by a differential run on the Fock simulator (all programs up to length 3 over 21 letters); one-mode graph embeddings, nearly-identical and symbolic loss channels (operations without a direct reference meaning are judged through their real decomposition).",
+    "C06": "Audit rounds: a selected outcome is honoured or refused - simulator x measurement type x selected value (0 / non-zero) x shots (1 / 3).",
+    "C08": "Audit rounds: backend.state(modes=...) after every segment: every single active mode, a descending pair (label k must describe position k), a deleted and an unknown index (must be refused).",
+    "C09": "Audit rounds: three segments built before anything runs (a value measured two segments earlier), the caller's compile_options dictionary must come back unchanged, ancilla outcomes of the bosonic simulator over every run/reset history up to length 4.",
+    "C11": "Audit rounds: a clock around every compile (a compile that does not return is a violation); three modes with a two-mode non-Gaussian gate in front of Gaussian gates incl. a 3-mode interferometer (length 4, thorough 5); the hybrid differential runs on a pure product of different coherent states.",
+    "C12": "Audit rounds: a passive gate between two squeezers of one pair (refuse or compile faithfully), a per-time-bin array in a hard-coded layout slot, NumPy scalars in hard-coded slots.",
+    "C13": "Audit rounds: daggered gates, expressions of loop variables and gates the engine has to decompose inside time-domain programs, post-selected measurements (the setting must survive every unrolling), three bands whose measured modes do not come out of a set in ascending order; crop bookkeeping with the value pi and with constant beamsplitter angles; call histories incl. run(space_unroll) from an unrolled program and a decomposition-needing program.",
+    "C14": "Audit rounds: reference maps through the real decomposition for operations without a direct reference meaning (keyword settings of GraphEmbed), measurement settings in generate_code.",
+    "C15": "Audit rounds: single-shot MSgate (ancilla outcome in units of sqrt(hbar), judged where a second execution reproduces it).",
+    "C16": "Audit rounds: squeezing() against the state's own covariance for phases in every quadrant, purity flag and pure-state formulas at hbar in {0.5, 1, 2} with 9-17 modes, Fock polynomials on every pair of modes of a nine-mode register.",
+    "C17": "Audit rounds: every real orbit element is also handed to the meshes with a real dtype.",
+    "C18": "Audit rounds: a two-mode gate that is not symmetric and not one of the two classes the implementation singles out (MZgate), post-selected measurements, measurements of different arity, an array-valued parameter (24 letters, all 3.6e5 ordered pairs of programs up to length 2).",
+    "C19": "Audit rounds: clique.search with 3000 iterations (more than the recursion limit) on every labelled graph on <= 3 nodes and every clique seed.",
+    "C20": "Audit rounds: qchem.vibronic.sample over every zero pattern of the thermal squeezing vector (shape and routing; the sampler is owned).",
+}
+
 
 def main():
     props = [json.loads(l) for l in open(os.path.join(HERE, "properties.jsonl"))]
@@ -190,7 +209,7 @@ def main():
                     "evidence_file": f"/verif/evidence/{pid}.json",
                     "replay_cmd_template": f"./check {pid} --replay {{path}}",
                     "engine": "mc-explorer",
-                    "level_claimed": {"category": cat, "text": text + (" " + EXT[pid] if pid in EXT else ""), "design_ref": ref + ("; section 9b" if pid in EXT else "")},
+                    "level_claimed": {"category": cat, "text": text + (" " + EXT[pid] if pid in EXT else "") + (" " + EXT2[pid] if pid in EXT2 else ""), "design_ref": ref + ("; section 9b" if pid in EXT else "") + ("; section 13" if pid in EXT2 else "")},
                     "level_note": note,
                     "technique": tech,
                 }
